@@ -377,15 +377,17 @@ Section Frag.
       Definition entry_ok (en : matcher * string * option dexp) : Prop :=
         (exists c l e, In c (un_cases u) /\ In l (uc_values c) /\ en = data_entry A u e l /\
                        decode_array A (uc_value c) UseAlias = EOk e) \/
-        (exists l, In l (un_void u) /\ en = void_entry A u l).
+        (exists l, In l (un_void u) /\ l <> "default"%string /\ en = void_entry A u l) \/
+        (In "default"%string (un_void u) /\ en = (MWild, variant_name "default", @None dexp)).
 
       Lemma entry_matches en : entry_ok en -> exists b, matches md (fst (fst en)) dd = Some b.
       Proof.
-        intros [[c [l [e [Hc [Hl [-> _]]]]]]|[l [Hl ->]]].
+        intros [[c [l [e [Hc [Hl [-> _]]]]]]|[[l [Hl [Hnd ->]]]|[_ ->]]].
         - unfold data_entry. cbn [fst].
           rewrite (label_agree A md Hgen Hsup u l d dd (proj1 Hok c l Hc Hl) Hdisc Td Hdd). eauto.
-        - unfold void_entry. cbn [fst]. destruct (String.eqb_spec l "default"); [cbn; eauto|].
-          rewrite (label_agree A md Hgen Hsup u l d dd (proj1 (proj2 Hok) l Hl n0) Hdisc Td Hdd). eauto.
+        - unfold void_entry. cbn [fst].
+          rewrite (label_agree A md Hgen Hsup u l d dd (proj1 (proj2 Hok) l Hl Hnd) Hdisc Td Hdd). eauto.
+        - cbn. eauto.
       Qed.
 
       Definition fb_ok (arms : list (matcher * string * option dexp)) (fb : fallback) : Prop :=
@@ -420,12 +422,13 @@ Section Frag.
           + destruct Hfb as [en [[] _]].
         - destruct en as [[m variant] payload].
           destruct (entry_matches _ Hen) as [b Hb]. cbn [fst] in Hb. rewrite Hb. destruct b.
-          + destruct Hen as [[c [l [e [Hc [Hl [E He]]]]]]|[l [Hl E]]]; inversion E; subst.
+          + destruct Hen as [[c [l [e [Hc [Hl [E He]]]]]]|[[l [Hl [Hnd E]]]|[Hl E]]]; inversion E; subst.
             * eapply safe_bind.
               -- eapply safe_pos; [exact He|exact (proj1 (Forall_forall _ _) (proj1 (sup_arms A Hcore n u Hget)) c Hc)|].
                  exact (proj1 (Forall_forall _ _) (proj1 (sup4_refs A Hsup4 n _ Hget)) c Hc).
               -- intros p Hp. apply safe_ret. eapply SN_union_data; eassumption.
             * apply safe_ret. eapply SN_union_void; eassumption.
+            * apply safe_ret. change "default"%string with (variant_name "default"). eapply SN_union_void; eassumption.
           + apply IH. destruct fb as [e| |]; cbn [fb_ok] in *; try exact Hfb.
             destruct Hfb as [en' [[<-|Hin] Hw]]; [|eauto].
             cbn [fst] in Hw. subst m. cbn in Hb. discriminate.
@@ -477,14 +480,19 @@ Section Frag.
                   left. exists c, l, e. split; [apply Hincl; now left|]. split; [exact Hl|]. split; [reflexivity|exact He].
                 + apply IH; [intros y Hy; apply Hincl; now right|reflexivity]. }
             exact (G (un_cases u) rows (incl_refl _) Erows).
-          * apply Forall_forall. intros x Hx. apply in_map_iff in Hx as [l [<- Hl]]. right. exists l. split; [exact Hl|reflexivity].
+          * apply Forall_app. split.
+            -- apply Forall_forall. intros x Hx. apply in_map_iff in Hx as [l [<- Hl]]. apply filter_In in Hl as [Hl Hnd].
+               right. left. exists l. split; [exact Hl|]. split; [|reflexivity].
+               apply Bool.negb_true_iff, String.eqb_neq in Hnd. exact Hnd.
+            -- destruct (mem "default" (un_void u)) eqn:Em; [|constructor].
+               constructor; [|constructor]. right. right. split; [now apply mem_In|reflexivity].
         + (* the fallback *)
           destruct (un_default u) as [dc|] eqn:Edc.
           * destruct (decode_array A (uc_value dc) UseAlias) as [e| |] eqn:Ee; cbn [ebind] in Efb; try discriminate.
             inversion Efb; subst fb. cbn [fb_ok]. eauto.
           * inversion Efb; subst fb. destruct (mem "default" (un_void u)) eqn:Em; cbn [fb_ok]; [|exact I].
-            exists (void_entry A u "default"). split; [|reflexivity].
-            apply in_or_app. right. apply in_map_iff. exists "default"%string. split; [reflexivity|now apply mem_In].
+            exists (MWild, variant_name "default", @None dexp). split; [|reflexivity].
+            apply in_or_app. right. apply in_or_app. right. now left.
       - (* enum *)
         inversion Hb; subst b. cbn [eval_body].
         eapply safe_bind; [apply safe_read_i32|]. intros z _.
